@@ -426,14 +426,23 @@ func (c *Ctx) c02Stores() {
 		return
 	}
 	var copies []*ssa.Call
-	eng.EachInstr(fileAdd, func(in ssa.Instruction) {
-		if call, ok := in.(*ssa.Call); ok {
-			switch eng.CalleeName(call.Common()) {
-			case "io.Copy", "io.CopyN", "io.CopyBuffer":
-				copies = append(copies, call)
-			}
+	var addFns []*ssa.Function
+	for fn := range p.SyncReach(fileAdd) {
+		if eng.FuncPkgPath(fn) == eng.FuncPkgPath(fileAdd) {
+			addFns = append(addFns, fn)
 		}
-	})
+	}
+	sortFuncs(addFns)
+	for _, fn := range addFns {
+		eng.EachInstr(fn, func(in ssa.Instruction) {
+			if call, ok := in.(*ssa.Call); ok {
+				switch eng.CalleeName(call.Common()) {
+				case "io.Copy", "io.CopyN", "io.CopyBuffer":
+					copies = append(copies, call)
+				}
+			}
+		})
+	}
 	if len(copies) != 1 || eng.CalleeName(copies[0].Common()) != "io.Copy" {
 		r.Bad("C02/STORE/write", "file.AddMessage:copy", p.Pos(fileAdd.Pos()), "expected exactly one io.Copy of the message source into the raw file, found %d copy calls (CopyN/limited copies truncate)", len(copies))
 	} else {
@@ -462,13 +471,50 @@ func (c *Ctx) c02Stores() {
 		}
 		// Fsize = copy count
 		okSz := false
-		for _, s := range eng.StoresToField(eng.WithAnons(fileAdd), fSize) {
-			if e, ok := s.Store.Val.(*ssa.Extract); ok && e.Tuple == ssa.Value(cp) && e.Index == 0 {
-				okSz = true
+		isCount := func(v ssa.Value) bool {
+			if e, ok := v.(*ssa.Extract); ok && e.Tuple == ssa.Value(cp) && e.Index == 0 {
+				return true
 			}
 			for _, a := range eng.ValueAliases(extractOf(cp, 0)) {
-				if s.Store.Val == a {
-					okSz = true
+				if v == a {
+					return true
+				}
+			}
+			return false
+		}
+		for _, s := range eng.StoresToField(addFns, fSize) {
+			if isCount(s.Store.Val) {
+				okSz = true
+				continue
+			}
+			// the count handed back by the helper that performs the copy: every return of the
+			// helper yields the count, or zero together with a non-nil error
+			if call, idx := eng.CallAndIndex(s.Store.Val); call != nil {
+				if g := eng.StaticCallee(call.Common()); g != nil && g == cp.Parent() {
+					all, n := true, 0
+					eng.EachInstr(g, func(in ssa.Instruction) {
+						ret, ok := in.(*ssa.Return)
+						if !ok || eng.IsRecoverBlock(ret.Block()) {
+							return
+						}
+						res := eng.ReturnResults(ret)
+						if idx >= len(res) {
+							all = false
+							return
+						}
+						if isCount(res[idx]) {
+							n++
+							return
+						}
+						e := res[len(res)-1]
+						if k, isC := eng.ConstInt(res[idx]); isC && k == 0 && (definitelyNonNilErr(e) || eng.KnownNonNil(e, ret.Block())) {
+							return
+						}
+						all = false
+					})
+					if all && n > 0 {
+						okSz = true
+					}
 				}
 			}
 		}
